@@ -255,3 +255,71 @@ def run(ctx):
     _run_before_r7(ctx)
     r7_first_result_kept(ctx)
     r8_root_exits(ctx)
+
+
+def r9_ordered_commands(ctx):
+    """stop / quit / ponderhit reach the search in the order they were given relative to go"""
+    rid = "C07.R9"
+    ctx.rule(rid, "the command thread talks to the search thread only through the ordered message channel: no field of an engine_core type holds shared mutable state (Atomic*, Mutex, RwLock, Condvar), the stop command is sent as a message, the running search turns it into the stop flag and the idle loop ignores it; a flag shared outside the channel can be set before the go it belongs to is taken up and then be cleared by that go's reset (the go is never answered)", floor=4)
+    prog = ctx.prog
+    fields = 0
+    shared = []
+    for k, a in sorted(prog.adts.items()):
+        if not k.startswith("inkayaku_engine_core::"):
+            continue
+        for v in a.get("variants", []):
+            for fld in v.get("fields", []):
+                fields += 1
+                ty = fld.get("ty") or ""
+                if any(w in ty for w in ("Atomic", "Mutex", "RwLock", "Condvar", "UnsafeCell", "Cell<")):
+                    shared.append("%s.%s: %s" % (k.rsplit("::", 1)[-1], fld.get("name"), ty))
+    ctx.ob(rid, "adt-walk-control", fields >= 40, "" if fields >= 40 else "only %d fields of engine_core types were seen: the ADT facts are incomplete" % fields, "", sample={"fields_scanned": fields})
+    ctx.ob(rid, "no-shared-state-outside-the-channel", not shared,
+           "" if not shared else "engine_core types hold shared mutable state next to the message channel: %s - a request stored there is not ordered with respect to the go message (set before the search thread takes the go up, then wiped or misread by that go)" % shared,
+           "", sample={"shared": shared})
+    # stop travels as a message and is honoured by the running search
+    MSG = "inkayaku_engine_core::engine::search::SearchMessage"
+    a = prog.adts.get(MSG)
+    variants = [v.get("name") for v in a.get("variants", [])] if a else []
+    ok = "UciStop" in variants
+    ctx.ob(rid, "stop-is-a-message", ok, "" if ok else "SearchMessage has no UciStop variant (variants: %s)" % variants, "")
+    senders = []
+    for k, f in prog.fns.items():
+        if not k.startswith("inkayaku_engine_core::engine::") or f.get("test"):
+            continue
+        ex = None
+        for b in f["blocks"]:
+            t = b["term"]
+            if b["cleanup"] or t["k"] != "call" or not (t["callee"].get("key") or "").endswith("Sender::send"):
+                continue
+            ex = ex or Exprs(f)
+            for arg in t["args"][1:]:
+                tr = ex.operand(arg)
+                txt = show(tr)
+                if "UciStop" in txt:
+                    senders.append(k)
+    ok = any(k.endswith("::accept") for k in senders)
+    ctx.ob(rid, "accept-sends-stop", ok, "" if ok else "no UciEngine::accept implementation sends SearchMessage::UciStop through the channel", "", sample={"senders": senders})
+    f = ctx.fn(rid, SEARCH + "check_messages")
+    cfg, ex = Cfg(f), Exprs(f)
+    sets = False
+    for b in sorted(cfg.reach):
+        for s in f["blocks"][b]["stmts"]:
+            d = s["dst"]
+            if d is not None and d["p"] and isinstance(d["p"][-1], dict) and d["p"][-1].get("name") == "stop_as_soon_as_possible" and s["rv"]["op"] == "use" and s["rv"]["a"][0].get("v") is True:
+                # under the UciStop arm (discriminant 4 of the message) or the quit arm
+                for (a_, sb) in cfg.control_deps_transitive(b):
+                    sw = f["blocks"][a_]["term"]
+                    if sw["k"] == "switch":
+                        taken = [v for v, tb in sw["targets"] if tb == sb]
+                        if taken and variants and 0 <= taken[0] < len(variants) and variants[taken[0]] == "UciStop":
+                            sets = True
+    ctx.ob(rid, "running-search-honours-stop", sets, "" if sets else "check_messages does not set stop_as_soon_as_possible under the UciStop message", ctx.where(f))
+
+
+_run_before_r9 = run
+
+
+def run(ctx):
+    _run_before_r9(ctx)
+    r9_ordered_commands(ctx)
